@@ -32,10 +32,16 @@ impl<T> HeapStorage<T> {
     #[cfg(feature = "vmem")]
     fn new(value: Box<[UnsafeSyncCell<T>]>) -> Self {
         let r = vmem_helper::new(&value);
+        let len = value.len();
+
+        // The items have been moved into the mapping: free the source without destroying them.
+        drop(unsafe {
+            core::mem::transmute::<Box<[UnsafeSyncCell<T>]>, Box<[core::mem::MaybeUninit<UnsafeSyncCell<T>>]>>(value)
+        });
 
         Self {
             inner: r,
-            len: value.len(),
+            len,
         }
     }
 
